@@ -581,6 +581,41 @@ func runContractiveGate(p *Program, r *RuleResult) {
 	} else {
 		r.add("types isContractive", "only-names-are-followed", Violated, "", fmt.Sprintf("implementers whose isContractive is not constantly true: %v", followers))
 	}
+	// the walk through names rejects a cycle: on the branch where the name was already
+	// visited (the comma-ok lookup in the visited set succeeded) the answer is false
+	for _, T := range p.Implementers(p.Named(typesPkg, "SessionType")) {
+		m := p.MethodOpt(T, "isContractive")
+		if m == nil || m.Blocks == nil {
+			continue
+		}
+		view := p.View(m)
+		for _, b := range view.Blocks() {
+			for f := range view.FactsAt(b) {
+				ex, ok := f.v.(*ssa.Extract)
+				if !ok || f.k != factTrue || ex.Index != 1 {
+					continue
+				}
+				lk, ok := ex.Tuple.(*ssa.Lookup)
+				if !ok || !lk.CommaOk {
+					continue
+				}
+				if mt, ok := lk.X.Type().Underlying().(*types.Map); !ok || !types.Identical(mt.Elem(), types.Typ[types.Bool]) {
+					continue
+				}
+				ins := view.Instrs(b)
+				ret, ok := ins[len(ins)-1].(*ssa.Return)
+				if !ok || len(ret.Results) != 1 {
+					continue
+				}
+				c, isConst := ret.Results[0].(*ssa.Const)
+				if isConst && c.Value != nil && c.Value.String() == "false" {
+					r.add(fnName(m), "revisited-name-is-not-contractive", Holds, p.instrPos(ret), "")
+				} else {
+					r.add(fnName(m), "revisited-name-is-not-contractive", Violated, p.instrPos(ret), "a name that is reached again while only names were followed (a cycle of definitions without a constructor) is not reported as non-contractive: unfolding such a definition never ends")
+				}
+			}
+		}
+	}
 }
 
 func runUnfoldGuard(p *Program, r *RuleResult) {
